@@ -46,8 +46,9 @@ impl Slot {
     /// Generates a named slot like `$xyz`
     pub fn named(s: &str) -> Slot {
         if let Ok(x) = s.parse::<u32>() {
-            // numbers too large for the encoding are interned like any other name.
-            if x <= u32::MAX / 4 {
+            // numbers too large for the encoding are interned like any other name, and so are numerals that are not
+            // written the way a numeric slot prints (`07`, `+7`): distinct names have to denote distinct slots.
+            if x <= u32::MAX / 4 && canonical_numeral(s) {
                 return Slot(x * 4); // numeric
             }
         }
@@ -59,7 +60,7 @@ impl Slot {
                     // small enough to leave at least half of the counter range to Slot::fresh(). Larger ones are interned
                     // like any other name: otherwise one parsed name such as `$f1073741822` would exhaust the counter and
                     // the next Slot::fresh() would overflow.
-                    if x <= (u32::MAX - 5) / 4 {
+                    if x <= (u32::MAX - 5) / 4 && canonical_numeral(&s[1..]) {
                         let out = x * 4 + 1;
                         if out < tab.fresh_idx || x < u32::MAX / 8 {
                             if tab.fresh_idx <= out {
@@ -82,6 +83,11 @@ impl Slot {
             Slot(i) // new named
         })
     }
+}
+
+/// A decimal numeral exactly as `Display` prints numbers: no sign, no leading zeros.
+fn canonical_numeral(s: &str) -> bool {
+    !s.starts_with("+") && (s.len() == 1 || !s.starts_with("0"))
 }
 
 impl Display for Slot {
